@@ -28,6 +28,8 @@ pub enum VOp {
     /// an iterator that yields nothing but reports u32::MAX - k items (k < 32): exhausts the index space
     /// without touching memory; later pushes must fail cleanly and the count must stay monotone
     ExtendHuge { k: u8 },
+    /// a push whose fill callback panics (after filling): the index stays reserved and is never readable
+    PushPanic,
 }
 
 #[derive(Clone, Debug, Serialize, Deserialize, Hash)]
@@ -39,6 +41,9 @@ pub struct SchedCase {
     pub mode: u8,
     pub choices: Vec<u8>,
     pub changes: Vec<u16>,
+    /// item type: 0 u64, 1 16-byte aligned, 2 64-byte aligned, 3 packed 9 bytes
+    #[serde(default)]
+    pub item_kind: u8,
 }
 
 #[derive(Clone, Debug, PartialEq)]
@@ -113,17 +118,65 @@ fn cols_of(v: u64, cols: usize) -> Vec<String> {
     (0..cols).map(|c| format!("{v:x}.{c}")).collect()
 }
 
-struct Lying {
-    vals: std::vec::IntoIter<u64>,
+/// item types of different size / alignment (the entry layout pads them differently against the columns)
+pub trait Payload: Copy + Send + Sync + 'static {
+    fn mk(v: u64) -> Self;
+    fn val(&self) -> u64;
+}
+impl Payload for u64 {
+    fn mk(v: u64) -> u64 {
+        v
+    }
+    fn val(&self) -> u64 {
+        *self
+    }
+}
+#[derive(Clone, Copy)]
+#[repr(align(16))]
+pub struct Wide16(u64);
+impl Payload for Wide16 {
+    fn mk(v: u64) -> Self {
+        Wide16(v)
+    }
+    fn val(&self) -> u64 {
+        self.0
+    }
+}
+#[derive(Clone, Copy)]
+#[repr(align(64))]
+pub struct Wide64(u64, u8);
+impl Payload for Wide64 {
+    fn mk(v: u64) -> Self {
+        Wide64(v, 7)
+    }
+    fn val(&self) -> u64 {
+        self.0
+    }
+}
+/// 9 bytes, alignment 1
+#[derive(Clone, Copy)]
+#[repr(packed)]
+pub struct Packed9(u64, u8);
+impl Payload for Packed9 {
+    fn mk(v: u64) -> Self {
+        Packed9(v, 3)
+    }
+    fn val(&self) -> u64 {
+        self.0
+    }
+}
+
+struct Lying<T> {
+    vals: std::vec::IntoIter<T>,
     reported: usize,
 }
-impl Iterator for Lying {
-    type Item = u64;
-    fn next(&mut self) -> Option<u64> {
+impl<T> Iterator for Lying<T> {
+    type Item = T;
+    fn next(&mut self) -> Option<T> {
         self.vals.next()
     }
 }
-impl ExactSizeIterator for Lying {
+impl<T> ExactSizeIterator for Lying<T> {
     fn len(&self) -> usize {
         self.reported
     }
@@ -131,17 +184,17 @@ impl ExactSizeIterator for Lying {
 
 const BOUNDARIES: [u32; 8] = [31, 32, 33, 95, 96, 97, 223, 224];
 
-fn run_thread(me: usize, ops: Vec<VOp>, v: Arc<RawVec<u64>>, cols: usize) {
+fn run_thread<T: Payload>(me: usize, ops: Vec<VOp>, v: Arc<RawVec<T>>, cols: usize) {
     ME.with(|m| m.set(Some(me)));
     yield_point(Ev::Site(0, 0)); // start parked
     for (k, op) in ops.iter().enumerate() {
         yield_point(Ev::Invoke(k));
         let res = match op {
             VOp::Push => {
-                let val = value_of(me, k, 0);
+                let val = T::mk(value_of(me, k, 0));
                 match guarded(|| {
                     v.push(val, |x, cs| {
-                        for (c, t) in cs.iter_mut().zip(cols_of(*x, cols)) {
+                        for (c, t) in cs.iter_mut().zip(cols_of(x.val(), cols)) {
                             *c = Utf32String::from(t.as_str());
                         }
                     })
@@ -150,12 +203,26 @@ fn run_thread(me: usize, ops: Vec<VOp>, v: Arc<RawVec<u64>>, cols: usize) {
                     Err(p) => Res::Panicked(p),
                 }
             }
+            VOp::PushPanic => {
+                let val = T::mk(value_of(me, k, 0));
+                match guarded(|| {
+                    v.push(val, |x, cs| {
+                        for (c, t) in cs.iter_mut().zip(cols_of(x.val(), cols)) {
+                            *c = Utf32String::from(t.as_str());
+                        }
+                        panic!("fill callback fault injection");
+                    })
+                }) {
+                    Ok(i) => Res::Pushed(i),
+                    Err(p) => Res::Panicked(p),
+                }
+            }
             VOp::Extend { n, lie } => {
-                let vals: Vec<u64> = (0..*n as usize).map(|j| value_of(me, k, j)).collect();
+                let vals: Vec<T> = (0..*n as usize).map(|j| T::mk(value_of(me, k, j))).collect();
                 let reported = (*n as i32 + *lie as i32).max(0) as usize;
                 match guarded(|| {
                     v.extend(Lying { vals: vals.into_iter(), reported }, |x, cs| {
-                        for (c, t) in cs.iter_mut().zip(cols_of(*x, cols)) {
+                        for (c, t) in cs.iter_mut().zip(cols_of(x.val(), cols)) {
                             *c = Utf32String::from(t.as_str());
                         }
                     })
@@ -176,14 +243,14 @@ fn run_thread(me: usize, ops: Vec<VOp>, v: Arc<RawVec<u64>>, cols: usize) {
                     4 => BOUNDARIES[*sel as usize % BOUNDARIES.len()],
                     _ => u32::MAX - (*sel as u32 % 40),
                 };
-                match guarded(|| v.get(idx).map(|it| (*it.data, it.matcher_columns.iter().map(|c| c.to_string()).collect::<Vec<_>>()))) {
+                match guarded(|| v.get(idx).map(|it| (it.data.val(), it.matcher_columns.iter().map(|c| c.to_string()).collect::<Vec<_>>()))) {
                     Ok(r) => Res::Got(idx, r),
                     Err(p) => Res::Panicked(format!("get({idx}): {p}")),
                 }
             }
             VOp::ExtendHuge { k } => {
                 let reported = u32::MAX as usize - (*k as usize % 32);
-                match guarded(|| v.extend(Lying { vals: Vec::new().into_iter(), reported }, |_, _| {})) {
+                match guarded(|| v.extend(Lying { vals: Vec::<T>::new().into_iter(), reported }, |_, _| {})) {
                     Ok(()) => Res::Extended,
                     Err(p) => Res::Panicked(p),
                 }
@@ -196,7 +263,7 @@ fn run_thread(me: usize, ops: Vec<VOp>, v: Arc<RawVec<u64>>, cols: usize) {
                 let cnt = v.count();
                 // (after the index space was exhausted a full scan would have billions of entries)
                 let start = if cnt > 1_000_000 { cnt - (*sel as u32 % 200) } else { (*sel as u32) % (cnt + 1) };
-                match guarded(|| v.snapshot_bounded(start, 4096).1.into_iter().map(|(i, it)| (i, it.map(|x| *x.data))).collect::<Vec<_>>()) {
+                match guarded(|| v.snapshot_bounded(start, 4096).1.into_iter().map(|(i, it)| (i, it.map(|x| x.data.val()))).collect::<Vec<_>>()) {
                     Ok(s) => Res::Snap(start, s),
                     Err(p) => Res::Panicked(p),
                 }
@@ -214,11 +281,12 @@ fn run_thread(me: usize, ops: Vec<VOp>, v: Arc<RawVec<u64>>, cols: usize) {
 fn op_strategy() -> BoxedStrategy<VOp> {
     prop_oneof![
         30 => Just(VOp::Push),
-        25 => (proptest::sample::select(vec![0u8, 1, 2, 31, 32, 33, 64, 97]), prop_oneof![60 => Just(0i8), 20 => 1i8..40, 20 => -3i8..0]).prop_map(|(n, lie)| VOp::Extend { n, lie }),
+        25 => (proptest::sample::select(vec![0u8, 1, 2, 31, 32, 33, 64, 97, 65, 95, 96]), prop_oneof![60 => Just(0i8), 20 => 1i8..40, 20 => -3i8..0]).prop_map(|(n, lie)| VOp::Extend { n, lie }),
         25 => (0u8..6, any::<u16>()).prop_map(|(kind, sel)| VOp::Get { kind, sel }),
         10 => Just(VOp::Count),
         10 => any::<u16>().prop_map(|sel| VOp::Snapshot { sel }),
         2 => (0u8..32).prop_map(|k| VOp::ExtendHuge { k }),
+        5 => Just(VOp::PushPanic),
     ]
     .boxed()
 }
@@ -235,7 +303,7 @@ impl Check for C08 {
         800
     }
     fn rule(&self) -> String {
-        "the raw item vector (facade), initial capacity {0,1,32,33,100}, 1-3 columns, 2-4 threads with up to 6 ops each: push, extend(n in {0,1,2,31,32,33,64,97}) with iterators reporting n+-k, get (assigned index / count / count+-1 / bucket boundaries / u32 extremes), count, snapshot scan; the schedule is a generated value: every atomic operation of the vector is a hook point where all threads park and exactly one is released (uniform random choices, or run-to-completion with generated preemption points). Oracle over the serialized event log: reserved index ranges are pairwise disjoint and tile [0, final count); get returns None or exactly (value, columns) of the operation that owns the index, Some once the owning push/extend has returned, never Some for an unassigned or never-yielded index; count never decreases and is >= completed pushes; snapshot scans yield each index of [start, end) once in order; no panic except the documented one for an iterator that yields more than it reported. Non-trivial: >= 2 context switches inside one push/extend and (two threads racing to allocate the same bucket, or a get between reservation and publication of its index, or an extend crossing a bucket boundary).".into()
+        "the raw item vector (facade), initial capacity {0,1,32,33,100}, 1-3 columns, item types of 8 bytes / 16-byte aligned / 64-byte aligned / packed 9 bytes, 2-4 threads with up to 6 ops each: push, push with a panicking fill callback, extend(n in {0,1,2,31,32,33,64,65,95,96,97}; templates with batches ending exactly on a bucket boundary) with iterators reporting n+-k, get (assigned index / count / count+-1 / bucket boundaries / u32 extremes), count, snapshot scan; the schedule is a generated value: every atomic operation of the vector is a hook point where all threads park and exactly one is released (uniform random choices, or run-to-completion with generated preemption points). Oracle over the serialized event log: reserved index ranges are pairwise disjoint and tile [0, final count); get returns None or exactly (value, columns) of the operation that owns the index, Some once the owning push/extend has returned, never Some for an unassigned or never-yielded index; count never decreases and is >= completed pushes; snapshot scans yield each index of [start, end) once in order; no panic except the documented one for an iterator that yields more than it reported. Non-trivial: >= 2 context switches inside one push/extend and (two threads racing to allocate the same bucket, or a get between reservation and publication of its index, or an extend crossing a bucket boundary).".into()
     }
     fn assumptions(&self) -> Vec<String> {
         vec!["sequentially consistent interleavings at the granularity of the vector's atomic operations (weak-memory effects belong to C09)".into()]
@@ -252,27 +320,58 @@ impl Check for C08 {
         for (a, b) in [(VOp::Push, VOp::Push), (VOp::Push, VOp::Get { kind: 0, sel: 0 }), (VOp::Extend { n: 33, lie: 0 }, VOp::Push), (VOp::Extend { n: 2, lie: 1 }, VOp::Get { kind: 1, sel: 0 })] {
             for mask in 0..64u32 {
                 let choices: Vec<u8> = (0..12).map(|i| ((mask >> (i % 6)) & 1) as u8).collect();
-                v.push(SchedCase { capacity: 0, columns: 1, threads: vec![vec![a.clone()], vec![b.clone()]], mode: 0, choices, changes: vec![] });
+                v.push(SchedCase { capacity: 0, columns: 1, threads: vec![vec![a.clone()], vec![b.clone()]], mode: 0, choices, changes: vec![], item_kind: (mask % 4) as u8 });
             }
         }
         // lookups at the extremes of the index space
         // exhausting the index space: the count must never decrease, lookups must not panic
         for k in [0u8, 5, 31] {
-            v.push(SchedCase { capacity: 0, columns: 1, threads: vec![vec![VOp::Push, VOp::Count, VOp::ExtendHuge { k }, VOp::Count, VOp::Push, VOp::Count, VOp::Push, VOp::Count, VOp::Extend { n: 2, lie: 0 }, VOp::Count], vec![VOp::Count, VOp::Push, VOp::Count, VOp::Get { kind: 5, sel: 3 }, VOp::Count, VOp::Push, VOp::Count]], mode: 0, choices: vec![0, 1, 0, 0, 1, 1, 0, 1], changes: vec![] });
+            v.push(SchedCase { capacity: 0, columns: 1, threads: vec![vec![VOp::Push, VOp::Count, VOp::ExtendHuge { k }, VOp::Count, VOp::Push, VOp::Count, VOp::Push, VOp::Count, VOp::Extend { n: 2, lie: 0 }, VOp::Count], vec![VOp::Count, VOp::Push, VOp::Count, VOp::Get { kind: 5, sel: 3 }, VOp::Count, VOp::Push, VOp::Count]], mode: 0, choices: vec![0, 1, 0, 0, 1, 1, 0, 1], changes: vec![], item_kind: 0 });
         }
-        v.push(SchedCase { capacity: 1, columns: 1, threads: vec![vec![VOp::Push, VOp::Get { kind: 5, sel: 0 }, VOp::Get { kind: 5, sel: 31 }, VOp::Get { kind: 5, sel: 32 }, VOp::Get { kind: 5, sel: 33 }], vec![VOp::Count]], mode: 1, choices: vec![0], changes: vec![] });
+        // a push whose fill panics while another push reserves and completes, every alternation
+        for mask in 0..64u32 {
+            let choices: Vec<u8> = (0..12).map(|i| ((mask >> (i % 6)) & 1) as u8).collect();
+            v.push(SchedCase { capacity: 0, columns: 1, threads: vec![vec![VOp::PushPanic, VOp::Count, VOp::Push, VOp::Count], vec![VOp::Push, VOp::Count, VOp::Push, VOp::Get { kind: 3, sel: 0 }]], mode: 0, choices, changes: vec![], item_kind: 0 });
+        }
+        // batches that span several buckets and end exactly on a bucket boundary (32 | 96 | 224), every item type, odd and even column counts
+        for (pre, n) in [(0u8, 96u8), (1, 95), (31, 65), (2, 222), (0, 32), (10, 86)] {
+            for item_kind in 0..4u8 {
+                for columns in 1..=2u8 {
+                    let mut t0 = vec![VOp::Extend { n: pre, lie: 0 }, VOp::Extend { n, lie: 0 }, VOp::Push, VOp::Count];
+                    if pre == 1 {
+                        t0[0] = VOp::Push;
+                    }
+                    v.push(SchedCase { capacity: 0, columns, threads: vec![t0, vec![VOp::Count, VOp::Get { kind: 4, sel: 3 }, VOp::Snapshot { sel: 0 }, VOp::Get { kind: 3, sel: 0 }]], mode: 1, choices: vec![0, 1], changes: vec![40, 200, 600], item_kind });
+                }
+            }
+        }
+        v.push(SchedCase { capacity: 1, columns: 1, threads: vec![vec![VOp::Push, VOp::Get { kind: 5, sel: 0 }, VOp::Get { kind: 5, sel: 31 }, VOp::Get { kind: 5, sel: 32 }, VOp::Get { kind: 5, sel: 33 }], vec![VOp::Count]], mode: 1, choices: vec![0], changes: vec![], item_kind: 0 });
         v
     }
     fn strategy(&self, _tier: Tier) -> BoxedStrategy<SchedCase> {
-        (proptest::sample::select(vec![0u8, 1, 32, 33, 100]), 1u8..=3, proptest::collection::vec(proptest::collection::vec(op_strategy(), 1..=6), 2..=4), 0u8..2, proptest::collection::vec(any::<u8>(), 0..200), proptest::collection::vec(0u16..400, 0..6))
-            .prop_map(|(capacity, columns, threads, mode, choices, mut changes)| {
+        (proptest::sample::select(vec![0u8, 1, 32, 33, 100]), 1u8..=3, proptest::collection::vec(proptest::collection::vec(op_strategy(), 1..=6), 2..=4), 0u8..2, proptest::collection::vec(any::<u8>(), 0..200), proptest::collection::vec(0u16..400, 0..6), prop_oneof![55 => Just(0u8), 15 => Just(1u8), 15 => Just(2u8), 15 => Just(3u8)])
+            .prop_map(|(capacity, columns, threads, mode, choices, mut changes, item_kind)| {
                 changes.sort();
-                SchedCase { capacity, columns, threads, mode, choices, changes }
+                SchedCase { capacity, columns, threads, mode, choices, changes, item_kind }
             })
             .boxed()
     }
     fn run(&self, c: &SchedCase) -> Outcome {
+        match c.item_kind % 4 {
+            0 => run_typed::<u64>(c),
+            1 => run_typed::<Wide16>(c),
+            2 => run_typed::<Wide64>(c),
+            _ => run_typed::<Packed9>(c),
+        }
+    }
+}
+
+fn run_typed<T: Payload>(c: &SchedCase) -> Outcome {
+    {
         let mut out = Outcome::default();
+        if c.item_kind % 4 != 0 {
+            out.label(["", "items-aligned-16", "items-aligned-64", "items-packed-9-bytes"][c.item_kind as usize % 4]);
+        }
         let n = c.threads.len();
         let cols = c.columns.max(1) as usize;
         {
@@ -280,12 +379,12 @@ impl Check for C08 {
             *s = Sched { log: vec![], waiting: vec![false; n], finished: vec![false; n], turn: None, active: true };
         }
         nucleo::verif::set_hook(Some(hook));
-        let v: Arc<RawVec<u64>> = Arc::new(RawVec::with_capacity(c.capacity as u32, cols as u32));
+        let v: Arc<RawVec<T>> = Arc::new(RawVec::with_capacity(c.capacity as u32, cols as u32));
         let mut handles = vec![];
         for (t, ops) in c.threads.iter().enumerate() {
             let v = v.clone();
             let ops = ops.clone();
-            handles.push(std::thread::spawn(move || run_thread(t, ops, v, cols)));
+            handles.push(std::thread::spawn(move || run_thread::<T>(t, ops, v, cols)));
         }
         // ---- scheduler -------------------------------------------------------------------------
         let ctlr = ctl();
@@ -346,7 +445,7 @@ impl Check for C08 {
     }
 }
 
-fn judge(c: &SchedCase, log: &[(usize, Ev)], final_count: u32, v: &RawVec<u64>, cols: usize, out: &mut Outcome) {
+fn judge<T: Payload>(c: &SchedCase, log: &[(usize, Ev)], final_count: u32, v: &RawVec<T>, cols: usize, out: &mut Outcome) {
     // ---- reservations ------------------------------------------------------------------------------
     // (start, reported, yielded, thread, op)
     let mut ranges: Vec<(u32, u32, u32, usize, usize)> = vec![];
@@ -365,7 +464,7 @@ fn judge(c: &SchedCase, log: &[(usize, Ev)], final_count: u32, v: &RawVec<u64>, 
                 // a context switch: count it for every push/extend currently in progress on other threads
                 for (ot, op) in cur_op.iter().enumerate() {
                     if let Some(op) = op {
-                        if matches!(c.threads[ot][*op], VOp::Push | VOp::Extend { .. }) {
+                        if matches!(c.threads[ot][*op], VOp::Push | VOp::PushPanic | VOp::Extend { .. }) {
                             *switches_inside.entry((ot, *op)).or_insert(0) += 1;
                         }
                     }
@@ -386,7 +485,8 @@ fn judge(c: &SchedCase, log: &[(usize, Ev)], final_count: u32, v: &RawVec<u64>, 
                 let Some(op) = cur_op[*t] else { continue };
                 match *s {
                     x if x == site::BOXCAR_PUSH_RESERVED => {
-                        ranges.push((*arg as u32, 1, 1, *t, op));
+                        let yielded = if matches!(c.threads[*t][op], VOp::PushPanic) { 0 } else { 1 };
+                        ranges.push((*arg as u32, 1, yielded, *t, op));
                         reserved_at.insert(*arg as u32, seq);
                     }
                     x if x == site::BOXCAR_EXTEND_RESERVED => {
@@ -460,11 +560,14 @@ fn judge(c: &SchedCase, log: &[(usize, Ev)], final_count: u32, v: &RawVec<u64>, 
         let inv = invoke_seq[&(*t, *k)];
         match res {
             Res::Panicked(p) => {
-                let allowed = matches!(&c.threads[*t][*k], VOp::Extend { lie, .. } if *lie < 0) || (has_huge && (p.contains("maximum") || p.contains("overflow")) && !matches!(&c.threads[*t][*k], VOp::Get { .. } | VOp::Count | VOp::Snapshot { .. }));
+                let allowed = matches!(&c.threads[*t][*k], VOp::Extend { lie, .. } if *lie < 0) || (matches!(&c.threads[*t][*k], VOp::PushPanic) && p.contains("fault injection")) || (has_huge && (p.contains("maximum") || p.contains("overflow")) && !matches!(&c.threads[*t][*k], VOp::Get { .. } | VOp::Count | VOp::Snapshot { .. }));
                 if !allowed {
                     let sig = if p.contains("exceeded maximum length") { "lookup-panics-at-index-space-end".to_string() } else { format!("panic:{}", p.rsplit(" at ").next().unwrap_or("")) };
                     out.fail(sig, format!("thread {t} op #{k} {:?} panicked: {p}; {ctx}", c.threads[*t][*k]));
                 }
+            }
+            Res::Pushed(_) if matches!(&c.threads[*t][*k], VOp::PushPanic) => {
+                out.fail("panic-swallowed", format!("thread {t} op #{k}: push returned although its fill callback panicked; {ctx}"));
             }
             Res::Pushed(i) => {
                 let owner = ranges.iter().find(|r| r.3 == *t && r.4 == *k);
@@ -531,8 +634,8 @@ fn judge(c: &SchedCase, log: &[(usize, Ev)], final_count: u32, v: &RawVec<u64>, 
         let owner = ranges.iter().find(|r| *i >= r.0 && *i < r.0 + r.2).unwrap();
         let panicked = response_seq.get(&(owner.3, owner.4)).map_or(true, |&rs| matches!(log[rs].1, Ev::Response(_, Res::Panicked(_))));
         match v.get(*i) {
-            Some(it) if *it.data == *e => {}
-            Some(it) => out.fail("final-content", format!("index {i} finally holds {:x}, expected {e:x}; {ctx}", it.data)),
+            Some(it) if it.data.val() == *e => {}
+            Some(it) => out.fail("final-content", format!("index {i} finally holds {:x}, expected {e:x}; {ctx}", it.data.val())),
             None if panicked => {}
             None => out.fail("final-content", format!("index {i} is finally empty, expected {e:x}; {ctx}")),
         }
